@@ -558,7 +558,27 @@ def r02_5(ctx, prog, crate):
     r10_5(Renamed(ctx, "R02.5"), prog, crate)
 
 
+def r02_8(ctx, prog, crate):
+    """(= R19.1 / R19.2) The allocation figures attributed to a sample are those of its own timed section: when the tuning
+    rounds are discarded, their per-sample allocation snapshots and counter values are discarded with their timings (one
+    clear() over all per-sample collections) - a snapshot left behind would be attributed to the later sample that reuses
+    its index."""
+    from .C19 import r19_1, r19_2
+    from .sampling import Sampling
+    from .common import Renamed
+    S = Sampling(prog, crate)
+    if not ctx.anchor("R02.8", "sampling loop", 1 if S.body is not None and S.loop is not None and S.cond_switch is not None else 0, 1):
+        return
+    R = Renamed(ctx, "R02.8")
+    info = r19_1(R, S, prog, crate)
+    if isinstance(info, tuple) and len(info) == 3 and isinstance(info[1], set):
+        r19_2(R, S, prog, crate, info)
+    else:
+        ctx.fail("R02.8/ANCHOR", ["tuning-edge"], "the tuning edge could not be identified", None)
+
+
 def run(ctx, prog, crate):
+    r02_8(ctx, prog, crate)
     r02_7(ctx, prog, crate)
     r02_6(ctx, prog, crate)
     r02_5(ctx, prog, crate)
